@@ -132,8 +132,8 @@ static bool THOROUGH = false;
 static std::string MODE;
 
 // c11 shapes
-enum { SH_TRUNC, SH_SHORT, SH_MAGICPREFIX, SH_MODEPAIR, SH_WRONGTAG, SH_GARBAGE, SH_NSHAPES };
-static const char *SHN[] = {"truncated-valid", "short-file", "magic-prefix", "mode-byte-pair", "wrong-tag-body-length", "garbage(seeded sample)"};
+enum { SH_TRUNC, SH_SHORT, SH_MAGICPREFIX, SH_MODEPAIR, SH_WRONGTAG, SH_GARBAGE, SH_RESIGNED, SH_NSHAPES };
+static const char *SHN[] = {"truncated-valid", "short-file", "magic-prefix", "mode-byte-pair", "wrong-tag-body-length", "garbage(seeded sample)", "cut-and-resigned"};
 static std::vector<Base> c11_trunc_bases() { std::vector<Base> v; for (int T : {1, 2, 4}) for (size_t n : {(size_t)5, S, 2 * S + 3}) v.push_back({1 + (T % 3), T % 3, T, n}); return v; }
 static std::vector<Base> c11_mode_bases() { std::vector<Base> v; for (int cm = 0; cm < 5; cm++) for (int hm = 0; hm < 3; hm++) v.push_back({cm, hm, 1 + (cm + hm) % 3, (cm * 3 + hm) % 2 ? (size_t)21 : S + 5}); return v; }
 static std::vector<int> border_vals() { return {0, 1, 2, 3, 4, 5, 6, 127, 128, 254, 255}; }
@@ -151,6 +151,10 @@ static void build_c11() {
   else { auto bv = border_vals(); for (size_t bi = 0; bi < mb.size(); bi++) for (int x : bv) for (int y : bv) C11.push_back({SH_MODEPAIR, (long)bi, x, y}); }
   for (size_t body : wrongtag_bodies()) for (int T : {1, 2, 4}) for (int hm = 0; hm < 3; hm++) for (int righttag = 0; righttag < 1; righttag++) C11.push_back({SH_WRONGTAG, (long)body, T, hm});
   for (int len = 0; len <= 300; len++) C11.push_back({SH_GARBAGE, len, 0, 0});
+  if (MODE == "c12") { // C12 quantifies over ALL files: valid files cut to every length >= 48 and re-tagged with the key (never produced by encryption, but verify and decrypt must still agree on them)
+    auto tb2 = c11_trunc_bases();
+    for (size_t bi = 0; bi < tb2.size(); bi++) { size_t L = file_of(tb2[bi]).size(); for (size_t m = 48; m < L; m++) C11.push_back({SH_RESIGNED, (long)bi, (long)m, 0}); }
+  }
 }
 static Bytes make_c11(const Shape &s, int inner, std::string &desc, int &T) {
   T = 4;
@@ -174,6 +178,13 @@ static Bytes make_c11(const Shape &s, int inner, std::string &desc, int &T) {
     for (size_t i = 0; i < 20 * (size_t)T + (size_t)s.a; i++) F.push_back((unsigned char)(i * 11 + 3));
     for (int i = 10; i < 10 + ref::hlen_of((int)s.c); i++) F[i] = (unsigned char)(i * 5);
     desc = "right magic, wrong tag, body of " + std::to_string(s.a) + " bytes, T=" + std::to_string(T);
+    return F;
+  }
+  case SH_RESIGNED: {
+    Base b = c11_trunc_bases()[s.a]; T = b.T; Bytes F = file_of(b); F.resize(s.b);
+    Bytes t = ref::hmac(b.hm, KEY, 16, F.data() + 48, F.size() - 48);
+    memcpy(F.data() + 10, t.data(), t.size());
+    desc = "valid file (T=" + std::to_string(T) + ") cut to " + std::to_string(s.b) + " bytes and re-tagged";
     return F;
   }
   case SH_GARBAGE: { Bytes F(s.a); uint32_t x = 12345 + (uint32_t)s.a * 977 + (uint32_t)s.c; for (auto &v : F) { x = x * 1664525u + 1013904223u; v = (unsigned char)(x >> 24); } if (s.a >= 8 && (s.a % 3 == 0)) memcpy(F.data(), ref::MAGIC, 8); T = 1 + (int)(s.a % 4); desc = "pseudo-random bytes, length " + std::to_string(s.a); return F; }
@@ -350,8 +361,9 @@ static std::string death(const Case &c, const CaseResult &cr) {
   std::string how = cr.exitcode == 42 ? "deadlock" : cr.exitcode == 77 ? "memory-error(ASan)" : cr.timeout ? "hang" : cr.exitcode == 46 ? "livelock" : "crash";
   std::string ctx = c.str("g");
   if (ctx == "mod") { const Base &b = BASES[c.num("base")]; std::string w; size_t L = file_of(b).size(); int kind = (int)c.num("kind"); size_t p = (size_t)c.num("p"); ctx = std::string(MK[kind]) + ":" + ((kind == M_BITFLIP || kind == M_SETBYTE || kind == M_DELBYTE || kind == M_INSBYTE) ? region(p, b, L) : kind == M_TRUNC ? "cut-in-" + region(p, b, L) : "-"); }
-  else if (ctx == "shape") ctx = SHN[C11[c.num("i")].shape];
-  return "abnormal-end:" + how + ":" + ctx + "|verify/decrypt did not return normally (" + describe_death(cr) + ")";
+  std::string extra;
+  if (ctx == "shape") { const Shape &sh = C11[c.num("i")]; ctx = SHN[sh.shape]; int T; make_c11(sh, 0, extra, T); extra = " on: " + extra; }
+  return "abnormal-end:" + how + ":" + ctx + "|verify/decrypt did not return normally (" + describe_death(cr) + ")" + extra;
 }
 
 int main(int argc, char **argv) {
